@@ -11,7 +11,10 @@ Three ties between the theorems (lean/Pw/C03/*.lean) and the code under test:
     compared after every call: raised?, per-layer edges, is_valid_mec_graph.
  3. spec – every implementation trace is judged directly against the Lean-defined spec predicates
     (`GoodP`/`GoodC`, `OrientOnlyP`/`OrientOnlyC`, tabulated through the driver at start-up), also
-    for the time-series classes for which there is no model."""
+    for the time-series classes.  StationaryTimeSeriesCPDAG traces are additionally compared call by call with
+    the node-level C13 model (`c13crun`; theorems C03.C03_tscpdag, lean/Pw/C03/TimeSeries.lean, re-elaborated
+    in tie 1 because guardBad_eq_addC ties the model's guard to the translated guard); the unguarded
+    StationaryTimeSeriesPAG (known finding) has no theorem to be tied to."""
 import copy
 import itertools
 import json
@@ -229,6 +232,66 @@ def parse_model(ans):
             o[k] = x.split("=", 1)[1]
         o["valid"], o["good"] = int(f[5]), int(f[6])
         tr.append(o)
+    return tr
+
+
+# ----------------------------------------------------------------------------- time-series CPDAG: the C13 model
+# StationaryTimeSeriesCPDAG histories are compared with the node-level model of C13 (C13.crun: guard on the named
+# pair, store / removal on every homologous copy, orient_uncertain_edge), about which lean/Pw/C03/TimeSeries.lean
+# proves the property (C03.C03_tscpdag).  Node index i of a case <-> TS_NODES[i]; variables x=0, y=1; max_lag 1.
+TS_SEL = {"directed": "0", "undirected": "1", "all": "*"}
+
+
+def ts_node(i):
+    var, t = TS_NODES[i]
+    return "%d.%d" % (0 if var == "x" else 1, t)
+
+
+def ts_fmt_op(op, form="list"):
+    k = op[0]
+    if k == "A" and form == "tup3" and op[2]:
+        # (u, v, attr) members: the guard loop of StationaryTimeSeriesCPDAG.add_edges_from unpacks 2-tuples only and
+        # raises ValueError at the first member (always a 3-tuple in this form) before anything changes; attributes
+        # are outside the C13 model, the call is replaced by one the model rejects without a change
+        return "ml:0"
+    if k == "o":
+        return "ou:%s:%s" % (ts_node(op[1][0]), ts_node(op[1][1]))
+    sel = TS_SEL.get(op[1], "7")              # a name that is no layer of the class: an index out of range
+    if k in ("a", "r"):
+        return "%s:%s:%s:%s" % ("ae" if k == "a" else "re", sel, ts_node(op[2][0]), ts_node(op[2][1]))
+    return "%s:%s:%s" % ("ab" if k == "A" else "rb", sel, "+".join("%s>%s" % (ts_node(u), ts_node(v)) for u, v in op[2]))
+
+
+def ts_run_line(case):
+    return "c13crun m=1 pre=av:0;av:1 ops=%s" % ";".join(ts_fmt_op(o, case.get("form", "list")) for o in case["ops"])
+
+
+def ts_parse_model(ans, case, spec):
+    """C13 state strings -> observations in this module's vocabulary (4 nodes, layers D and U)"""
+    if not case["ops"]:
+        parts = []
+    else:
+        parts = ans.split(";")
+        if len(parts) != len(case["ops"]) or any("|" not in p_ for p_ in parts):
+            return None
+    good = spec.good["C"]
+
+    def idx(nd):
+        var, lag = nd.split(".")
+        if int(var) > 1 or int(lag) > 1:
+            return 99
+        return int(var) * 2 + (1 - int(lag))
+
+    def obs(raised, lay):
+        D, U = [[tuple(idx(n) for n in e.split(">")) for e in l.split(",") if e] for l in lay.split("|")]
+        o = {"raised": raised, "D": C.canon_dir(D), "B": "", "U": C.canon_und(U), "C": ""}
+        g = all(good[b] for b in pair_states(o, 4, "C").values())
+        o["valid"], o["good"] = int(g), int(g)     # is_valid_mec_graph accepts iff Good (theorem isValidC_eq_good)
+        return o
+    tr = [obs("-", "|")]
+    for p_ in parts:
+        r, st = p_.split("|", 1)
+        tr.append(obs(1 if r == "err" else 0, st.split("/L=")[1]))
     return tr
 
 
@@ -499,8 +562,9 @@ def gen_random(ctx, spec, count):
 
 
 def gen_ts(ctx, count):
-    """time-series classes (no model; judged against the spec predicates only).  4 nodes = 2
-    variables x lags {0,-1}; lag-respecting and lag-violating pairs are both generated"""
+    """time-series classes (TSCPDAG: compared with the C13 model and judged against the spec predicates; TSPAG:
+    spec predicates only).  4 nodes = 2 variables x lags {0,-1}; lag-respecting and lag-violating pairs are both
+    generated"""
     rng = ctx["rng"]
     for i in range(count):
         cls = ("TSCPDAG", "TSPAG")[i % 2]
@@ -535,7 +599,11 @@ def gen_ctor(ctx, spec, count):
 
 
 # ----------------------------------------------------------------------------- translator tie
-BODY_FILES = ("Model.lean", "Table.lean", "Lift.lean", "Full.lean", "Find.lean", "Reach.lean", "Stationary.lean")
+BODY_FILES = ("Model.lean", "Table.lean", "Lift.lean", "Full.lean", "Find.lean", "Reach.lean", "Stationary.lean",
+              "TimeSeries.lean")
+# TimeSeries.lean ties the hand-written guard of the C13 model to the translated guard (guardBad_eq_addC); the C13
+# modules it builds on do not depend on the guard text and are imported as they are
+C13_IMPORTS = ("Pw.C13.Orient",)
 
 
 def body_of(path):
@@ -545,7 +613,8 @@ def body_of(path):
 
 def assemble(defs, with_eval=False, files=BODY_FILES):
     from translate import guards
-    out = guards.module_text(defs, imports=("Pw.C03.Bits", "Pw.C03.PairMap", "Pw.C03.Spec"))
+    out = guards.module_text(defs, imports=("Pw.C03.Bits", "Pw.C03.PairMap", "Pw.C03.Spec") +
+                             (C13_IMPORTS if "TimeSeries.lean" in files else ()))
     for f in files:
         out += "\n-- ===== included: lean/Pw/C03/%s =====\n" % f + body_of(os.path.join(LEAN, "Pw", "C03", f))
     if with_eval:
@@ -656,8 +725,11 @@ def classify(ctx, spec, case, tr, mtr):
         if fid not in reg:
             vio.append((i, "unregistered-finding", "%s (%s) at %s" % (fid, KF_TEXT[fid], fmt_op(case["ops"][i - 1]))))
         elif mtr is False or d is None or d > i:
-            out.known(fid, KF_TEXT[fid] + (" (the Lean model reproduces the state)" if mtr is not False else ""),
+            ts = case["cls"].startswith("TS")   # (report lines of the time-series findings are kept as they were)
+            out.known(fid, KF_TEXT[fid] + (" (the Lean model reproduces the state)" if mtr is not False and not ts else ""),
                       {"case": case, "step": i})
+            if ts and mtr is not False:
+                ev.count("ts-known-finding-reproduced-by-C13-model:" + fid)
         else:
             vio.append((i, "contradictory-marks", "edge_type='all' step on which implementation and model differ"))
     if vio:
@@ -703,7 +775,10 @@ def shrink_history(case, fails):
     return cur
 
 
-def model_trace(case, drv=None):
+def model_trace(case, drv=None, spec=None):
+    if case["cls"] == "TSCPDAG":
+        ans = drv.ask(ts_run_line(case)) if drv else C.lean_batch([ts_run_line(case)])[0]
+        return ts_parse_model(ans, case, spec or SpecTables())
     if case["cls"].startswith("TS"):
         return False
     ans = drv.ask(run_line(case)) if drv else C.lean_batch([run_line(case)])[0]
@@ -719,7 +794,10 @@ def run(ctx):
                "pair state x every ordered pair of single calls; random = histories of length 2..30 from empty, random "
                "Good, or arbitrary start states, five label families; constructors = every subset of entries on one "
                "pair (also duplicated/reversed) + random lists; time-series classes = random histories over 2 variables "
-               "x 2 lags judged against the spec predicates only. After every call: raised?, per-layer edges, "
+               "x 2 lags: StationaryTimeSeriesCPDAG compared call by call with the node-level C13 model (C13.crun, incl. "
+               "orient_uncertain_edge, 'all', unknown edge types, bulk lists) and judged against the spec predicates, "
+               "StationaryTimeSeriesPAG (unguarded, known finding) judged against the spec predicates only. After every "
+               "call: raised?, per-layer edges, "
                "is_valid_mec_graph, node count. non-trivial = some call names a pair that already carries a mark")
     ev.assumptions = ["calls name two different nodes that are already in the graph (self loops are outside the "
                       "property's 'node pair' quantifier)",
@@ -762,11 +840,18 @@ def run(ctx):
             bad_v.append((case, detail))
         elif kind == "corr":
             bad_c.append((case, detail))
-    # ---- time-series classes (spec only)
+    # ---- time-series classes: the CPDAG against the C13 model (C13.crun) and the spec, the unguarded PAG against
+    # the spec only
+    ts_cp = [c for c in ts_cases if c["cls"] == "TSCPDAG"]
+    ts_ans = dict(zip((id(c) for c in ts_cp), C.lean_batch([ts_run_line(c) for c in ts_cp])))
     for case, tr in zip(ts_cases, ts_traces):
-        kind, detail = classify(ctx, spec, case, tr, False)
+        mtr = ts_parse_model(ts_ans[id(case)], case, spec) if case["cls"] == "TSCPDAG" else False
+        kind, detail = classify(ctx, spec, case, tr, mtr)
         if kind == "violation":
             bad_v.append((case, detail))
+        elif kind == "corr":
+            bad_c.append((case, detail))
+    ev.extra["ts_cpdag_histories_compared_with_C13_model"] = len(ts_cp)
     # ---- constructors
     for case, (raised, obs), m in zip(ctor_cases, cres, cans):
         r = judge_ctor(ctx, spec, case, raised, obs, m)
@@ -785,14 +870,19 @@ def run(ctx):
                 def fails(c):
                     v, kn, _ = judge_trace(c, impl_trace(c), spec)
                     return bool(v)
-                small = shrink_history(case, fails)
+                small = shrink_history(case, fails) if fails(case) else case
                 tr = impl_trace(small)
                 v, _, _ = judge_trace(small, tr, spec)
-                mtr = None if small["cls"].startswith("TS") else drv.ask(run_line(small))
+                if not v:      # a known-finding step on which implementation and model differ (judged in classify)
+                    v = detail
+                mtr = (drv.ask(ts_run_line(small)) if small["cls"] == "TSCPDAG" else
+                       None if small["cls"].startswith("TS") else drv.ask(run_line(small)))
             finally:
                 drv.close()
             out.violation(small, {"kind": v[0][1], "detail": v[0][2], "step": v[0][0], "impl_trace": tr,
-                                  "model_answer": mtr, "lean_request": run_line(small), "original_case": case,
+                                  "model_answer": mtr,
+                                  "lean_request": ts_run_line(small) if small["cls"] == "TSCPDAG" else run_line(small),
+                                  "original_case": case,
                                   "violating_cases_total": len(bad_v),
                                   "kinds": sorted(set(d[0][1] for _, d in bad_v if isinstance(d, list)))})
         else:
@@ -803,14 +893,15 @@ def run(ctx):
             drv = C.Driver()
             try:
                 def fails(c):
-                    return first_diff(impl_trace(c), parse_model(drv.ask(run_line(c)))) is not None
+                    return first_diff(impl_trace(c), model_trace(c, drv, spec)) is not None
                 small = shrink_history(case, fails)
                 tr = impl_trace(small)
-                mtr = parse_model(drv.ask(run_line(small)))
+                mtr = model_trace(small, drv, spec)
             finally:
                 drv.close()
             out.corr(small, {"what": "implementation differs from the Lean model, no spec violation found",
-                             "impl_trace": tr, "model_trace": mtr, "lean_request": run_line(small),
+                             "impl_trace": tr, "model_trace": mtr,
+                             "lean_request": ts_run_line(small) if small["cls"] == "TSCPDAG" else run_line(small),
                              "cases_total": len(bad_c)})
         else:
             out.corr(case, detail)
@@ -864,9 +955,9 @@ def replay(ctx, payload):
         print("REPRODUCED" if r else "NOT-REPRODUCED")
         return 1 if r else 0
     tr = impl_trace(case)
-    mtr = model_trace(case)
+    mtr = model_trace(case, spec=spec)
     vio, known, _ = judge_trace(case, tr, spec)
-    print("request:", run_line(case))
+    print("request:", ts_run_line(case) if case["cls"] == "TSCPDAG" else run_line(case))
     for i, o in enumerate(tr):
         print(" impl  step %d: %s" % (i, o))
         if mtr:
